@@ -41,6 +41,18 @@ pub struct Case {
     /// appenders sharing a file): the single-threaded appends alternate between the two
     #[serde(default)]
     pub twin: bool,
+    /// before the single append of this index, an append whose message argument panics while being formatted unwinds
+    /// out of the appender (the caller catches it); appends acknowledged afterwards are held to the same promise
+    #[serde(default)]
+    pub panicking_arg_at: Option<u8>,
+}
+
+struct PanickingArg;
+
+impl std::fmt::Display for PanickingArg {
+    fn fmt(&self, _: &mut std::fmt::Formatter) -> std::fmt::Result {
+        panic!("Display impl of a log argument panics")
+    }
 }
 
 fn yes() -> bool {
@@ -72,9 +84,9 @@ pub fn strategy() -> impl Strategy<Value = Case> {
         prop::option::weighted(0.5, phase),
         prop::collection::vec(len_strategy(), 0..=3),
         prop::bool::weighted(0.7),
-        prop::bool::weighted(0.25),
+        (prop::bool::weighted(0.25), prop::option::weighted(0.25, 0u8..8)),
     )
-        .prop_map(|(pre_kind, pre_len, append_mode, chunks, singles, phase, singles_after, terminated, twin)| Case { pre_kind, pre_len, append_mode, chunks, singles, phase, singles_after, terminated, twin: twin && append_mode })
+        .prop_map(|(pre_kind, pre_len, append_mode, chunks, singles, phase, singles_after, terminated, (twin, panicking_arg_at))| Case { pre_kind, pre_len, append_mode, chunks, singles, phase, singles_after, terminated, twin: twin && append_mode, panicking_arg_at })
 }
 
 /// Multi-chunk encoder which can park *inside* the appender's critical section.
@@ -189,7 +201,15 @@ fn check_in(dir: &Path, case: &Case, obs: &mut Obs) -> CaseResult {
         );
         Ok(())
     };
-    for len in &case.singles {
+    let mut unwound = false;
+    for (si, len) in case.singles.iter().enumerate() {
+        if case.panicking_arg_at.map(|k| k as usize % case.singles.len()) == Some(si) {
+            let r = catch(|| app.append(&log::Record::builder().args(format_args!("{}", PanickingArg)).level(log::Level::Info).target("t").build()));
+            ensure!(r.is_err(), "C04:harness", "the panicking argument did not panic");
+            let got = std::fs::read(&path).unwrap_or_default();
+            ensure!(got == expected, "C04:content", "an append that unwound before producing a byte changed the file: {} bytes, expected {}", got.len(), expected.len());
+            unwound = true;
+        }
         big |= record_size(*len) > 1024;
         single(*len, &mut seq, &mut expected, obs)?;
     }
@@ -318,6 +338,7 @@ fn check_in(dir: &Path, case: &Case, obs: &mut Obs) -> CaseResult {
     obs.class_if(case.chunks.is_some(), "multi-chunk-encoder");
     obs.class_if(!case.terminated, "records-without-trailing-newline");
     obs.class_if(case.twin, "two-append-mode-appenders-on-one-path");
+    obs.class_if(unwound, "append-unwound-by-panicking-argument-earlier");
     Ok(())
 }
 
